@@ -11,6 +11,12 @@ import os, re
 class GenError(Exception):
     pass
 
+ADVISORIES = []
+
+def advise(msg):
+    """a shape sentinel that is not recognised any more but whose behaviour the correspondence run decides"""
+    ADVISORIES.append(msg)
+
 _CANON = os.path.join(os.path.dirname(os.path.abspath(__file__)), "rustfmt-canon.toml")
 _fmt_cache = {}
 _bin = []
